@@ -20,6 +20,7 @@ type sinkState struct {
 	ordered  bool // single producer: the sequence must be preserved
 	exactDXF bool // C15: DXF coordinates must parse back to exactly the input
 
+	notices  []Check          // secondary findings that do not stop the other checks
 	outTris  []*sdf.Triangle3 // what ToTriangles returned
 	outLines []*sdf.Line2
 }
@@ -190,6 +191,7 @@ func (s *sinkState) check3MF() Check {
 }
 
 func (s *sinkState) checkDXF() Check {
+	s.notices = nil
 	d, err := decodeDXFFile(s.path)
 	if err != nil {
 		return bad("sink-missing", "dxf: %v", err)
@@ -220,9 +222,10 @@ func (s *sinkState) checkDXF() Check {
 		return bad("sink-content", "dxf lines: %s", msg)
 	}
 	// C15 "exact coordinates": the decimal text must parse back to the input
+	// (reported as a notice so that the remaining checks of the job still run)
 	if s.exactDXF {
 		if ok, msg := compareKeys(want, got, s.ordered); !ok {
-			return bad("dxf-precision", "dxf coordinates are written with 16 decimal places and do not parse back to the exact input: %s", msg)
+			s.notices = append(s.notices, bad("dxf-precision", "dxf coordinates are written with 16 decimal places and do not parse back to the exact input: %s", msg))
 		}
 	}
 	return okCheck
